@@ -72,6 +72,7 @@ NO_RAISE_PROPS = {'C07', 'C20'}                     # C01 runs it itself
 MORPHY_PROPS = {'C09'}                              # C17 runs it itself
 ILI_IDENTITY_PROPS = {'C19'}                        # C10 runs it itself
 INIT_DB_PROPS = {'C01', 'C06', 'C19'}                  # what _init_db writes is committed (C05 runs it itself)
+CORNER_DOC_PROPS = {'C11'}                          # a valid document with parallel sense-synset relations is accepted (C01 runs it itself)
 ROUTE_PROPS = {'C01', 'C05', 'C06', 'C20'}          # add(): lexicons are added unless ALL are skipped (C07 runs it itself)
 
 
@@ -107,6 +108,9 @@ def shared_contracts(sess: Session):
     if prop in INIT_DB_PROPS:
         from contracts import C05
         C05.init_db_bounded(sess)
+    if prop in CORNER_DOC_PROPS:
+        from contracts import C01
+        C01.order_bounded(sess)
     if prop in ROUTE_PROPS:
         from contracts import C07
         check_all(C07.route_obligations())
